@@ -51,7 +51,7 @@ fn craft_wm_codes(freq: &mut HashMap<usize, u32>, sigma: usize) -> Vec<PrefixCod
     #[cfg(qwt_verif)]
     crate::verif_hooks::record_craft(f.iter().map(|x| (x.0, x.1)).collect());
 
-    let mut c = vec![0; alph_size];
+    let mut c = vec![0; alph_size + 1]; // up to alph_size + 1 nodes are alive at once
     let mut assignments = vec![PrefixCode { content: 0, len: 0 }; sigma + 1];
     let mut m = 1; //how many codes we have so far
     let mut l = 0;
